@@ -1177,6 +1177,11 @@ class PathModel2(Model):
                       PPARENT(PJOIN(a, b)) == a)),
                 patterns=[PPARENT(PJOIN(a, b))]),
             z3.ForAll([a], INSIDE(a, a), patterns=[INSIDE(a, a)]),
+            # the first component of a join is the first component of its
+            # left operand (for a relative right operand)
+            z3.ForAll([a, b], z3.Implies(z3.Not(ISABS(b)),
+                                         PART(PJOIN(a, b), 0) == PART(a, 0)),
+                      patterns=[PJOIN(a, b)]),
             # the last component of a join is the last component of its
             # (relative) right operand
             z3.ForAll([a, b], z3.Implies(z3.Not(ISABS(b)),
